@@ -15,6 +15,14 @@ for id in $IDS; do
 done
 (cd lean && lake build $MODS $DRVS)
 (cd harness && CARGO_TARGET_DIR=../.build/cargo RUSTFLAGS="--cfg robopoker_verif" cargo build --release $BINS)
+NBINS=""
+for id in $IDS; do
+  low=$(echo $id | tr 'A-Z' 'a-z')
+  if python3 -c "import json,sys;sys.exit(0 if 'nodebug' in json.load(open('props/$id.json')).get('streams',['std']) else 1)"; then NBINS="$NBINS --bin $low"; fi
+done
+if [ -n "$NBINS" ]; then
+  (cd harness && CARGO_TARGET_DIR=../.build/cargo-nodebug RUSTFLAGS="--cfg robopoker_verif" cargo build --profile release-nodebug $NBINS)
+fi
 if [ -n "$SBINS" ]; then
   (cd harness && CARGO_TARGET_DIR=../.build/cargo-short RUSTFLAGS="--cfg robopoker_verif" cargo build --release --features shortdeck $SBINS)
 fi
